@@ -488,7 +488,7 @@ op("full", 0, lambda p: _np().full(tuple(p["shape"]), p["v"], dtype="int64"),
    lambda rng, xs, ctx: dict(gen_cshape(rng, xs, ctx), v=rng.choice([0, 2, -3])), fill="unknown")
 op("random", 0, lambda p: None,
    lambda p: _sp().random(tuple(p["shape"]), density=p["density"], random_state=p["seed"], format=p["fmt"],
-                          fill_value=p["fv"], data_rvs=(lambda n: _np().arange(1, n + 1)) if p["ints"] else None),
+                          fill_value=p["fv"], data_rvs=(lambda n: _np().arange(3, n + 3)) if p["ints"] else None),
    lambda rng, xs, ctx: dict(gen_cshape(rng, xs, ctx), density=rng.choice([0.0, 0.1, 0.5, 0.9, 1.0]), seed=rng.randint(0, 10 ** 6),
                              fv=rng.choice([None, None, 2]), ints=rng.random() < 0.7), ret="noref", fill="unknown")
 
@@ -677,7 +677,7 @@ class Gen:
 
 def gen_sweep(rng, tier):
     """(a): one-step programs, every operation of the catalogue, operands in every format"""
-    reps = 14 if tier == "quick" else 60
+    reps = 10 if tier == "quick" else 60
     cases = []
     for name in OPS:
         for k in range(reps):
@@ -697,7 +697,7 @@ def gen_sweep(rng, tier):
 
 def gen_programs(rng, tier):
     """(b): composed programs"""
-    n = 420 if tier == "quick" else 3000
+    n = 300 if tier == "quick" else 3000
     maxd = 4 if tier == "quick" else 8
     names = [n_ for n_ in OPS if n_ not in SWEEP_ONLY]
     weights = [3 if OPS[n_]["second"] in ("matmul", "tensordot", "concat", "stack") or n_ in (
@@ -719,7 +719,7 @@ def gen_programs(rng, tier):
 
 def gen_ctor(rng, tier):
     """(c): COO(coords, data, shape, fill_value, sorted=, has_duplicates=, prune=) on raw inputs"""
-    n = 900 if tier == "quick" else 6000
+    n = 600 if tier == "quick" else 6000
     cases = []
     for i in range(n):
         nd = rng.choice([1, 1, 2, 2, 3]) if i % 40 else 0
@@ -744,7 +744,7 @@ def gen_ctor(rng, tier):
 
 
 def gen_csr(rng, tier):
-    n = 150 if tier == "quick" else 1500
+    n = 120 if tier == "quick" else 1500
     cases = []
     for _ in range(n):
         r, m, k = rng.choice([1, 2, 3, 4]), rng.choice([1, 2, 3, 5]), rng.choice([1, 2, 3, 5])
@@ -865,7 +865,7 @@ def campaign(build, tier, seed, report, budget=1):
             reflit = "None" if ref is None or kindtag == "other" else f"(Some ({vlist(ref['shape'])}, {vlist(ref['flat'])}))"
             lits.append(vpair(vlib.sarr_lit(p), vbool(pruned_in), reflit))
             where.append((ci, si))
-    bad = build.judge("c06_results", "From Verif Require Import SArr C06Judge.", "c06_case", "judge_result", lits, chunk=400)
+    bad = build.judge("c06_results", "From Verif Require Import Py Shape COO GCXS SArr Ctor C06Judge.", "c06_case", "judge_result", lits, chunk=400)
     seen_first = {}
     for idx, code in bad:
         ci, si = where[idx]
@@ -875,7 +875,13 @@ def campaign(build, tier, seed, report, budget=1):
         seen_first[ci] = si
         st = c["steps"][si]
         tag(f"verdict/{code}")
-        viol.append({"property": "C06", "op": st["op"], "kind": "value", "clause": None, "code": code,
+        clause = None
+        if st["op"] == "getitem" and code == 1 and r["results"][si].get("k") == "gcxs":
+            kinds = [it[0] for it in st["p"]["idx"]]
+            opnd = r["inputs"][st["args"][0][1]] if st["args"][0][0] == "in" else r["results"][st["args"][0][1]]
+            if "n" in kinds and "i" in kinds and opnd.get("k") == "gcxs" and len(opnd["shape"]) >= 2:
+                clause = "gcxs_getitem_newaxis_with_int_malformed"
+        viol.append({"property": "C06", "op": st["op"], "kind": "value", "clause": clause, "code": code,
                      "what": CODE_TEXT.get(code, str(code)), "step": si, "program_depth": len(c["steps"]),
                      "case": {"inputs": c["inputs"], "steps": c["steps"][:si + 1]},
                      "operands_raw": [r["inputs"][a[1]] if a[0] == "in" else r["results"][a[1]] for a in st["args"]],
@@ -894,7 +900,7 @@ def campaign(build, tier, seed, report, budget=1):
         nod = len({tuple(x) for x in c["coords"]}) == len(c["coords"])
         tag("ctor/" + ("sorted-promise-false" if c["sorted"] and not srt else
                        "dup-promise-false" if (not c["hd"]) and not nod else "promises-kept"))
-    for idx, code in build.judge("c06_ctor", "From Verif Require Import SArr C06Judge.", "ctor_case", "judge_ctor", clits, chunk=400):
+    for idx, code in build.judge("c06_ctor", "From Verif Require Import Py Shape COO GCXS SArr Ctor C06Judge.", "ctor_case", "judge_ctor", clits, chunk=400):
         c = cases[cwhere[idx]]
         viol.append({"property": "C06", "op": "COO.__init__", "kind": "representation", "clause": None, "code": code,
                      "what": "COO.__init__ and the model coo_ctor disagree", "case": c, "impl": res[cwhere[idx]],
@@ -913,7 +919,7 @@ def campaign(build, tier, seed, report, budget=1):
         klits.append(vpair(ga[len("(SGcxs "):-1], gb[len("(SGcxs "):-1], vlib.sarr_lit(r["r"])))
         kwhere.append(ci)
         tag("csr/" + ("dense-result" if r["r"].get("k") == "gcxs" and len(r["r"]["data"]) == len(c["A"]) * len(c["B"][0]) else "partial"))
-    for idx, code in build.judge("c06_csr", "From Verif Require Import SArr C06Judge.", "csr_case", "judge_csr", klits, chunk=300):
+    for idx, code in build.judge("c06_csr", "From Verif Require Import Py Shape COO GCXS SArr Ctor C06Judge.", "csr_case", "judge_csr", klits, chunk=300):
         c = cases[kwhere[idx]]
         viol.append({"property": "C06", "op": "matmul_gcxs_gcxs", "kind": "representation", "clause": None, "code": code,
                      "what": "GCXS @ GCXS raw arrays differ from the kernel model dot_csr_csr + _prune", "case": c,
